@@ -210,6 +210,8 @@ def r2(ctx):
 def r3(ctx):
     from . import c01, c09
     ctx.sub(c01.r9)     # cost table = -loglik; stored cost = kernel's second result
+    from . import c05
+    ctx.sub(c05.r2, only=("table:ranges", "table:row", "table:same-k", "table:return", "wrapper:return"))   # ... with an entry for every point and cluster
     ctx.sub(c01.r6, only=("start:cost",))   # reported cost = cost of the returned path's start state (which state is C01's business)
     ctx.sub(c01.r1)     # tables are written only by the recurrence
     ctx.sub(c01.r2)
